@@ -129,7 +129,9 @@ def randrange(start, stop=None, step=1):
     if stop is None:
         start, stop = 0, start
     if step != 1:
-        raise NotImplementedError("symx: randrange with step")
+        from .core import Unsupported
+
+        raise Unsupported("randrange with a step")
     if isinstance(start, SymInt):
         start = start.concrete()
     if isinstance(stop, SymInt):
